@@ -867,6 +867,74 @@ def explore_predict_variants(case):
     return res
 
 
+def explore_threads(case):
+    """two calls of the routines in two threads, every interleaving of their Python statements with at most `bound` preemptions: the routines
+    share nothing, so each call returns what it returns alone"""
+    from .. import threads
+    res = core.Result()
+    u = _util()
+    bound = case["bound"]
+    A = np.array([[4.0, 1, 0.5], [1, 3, 0.2], [0.5, 0.2, 2]])
+    B = np.array([[2.0, -0.3, 0.1], [-0.3, 5, 1.0], [0.1, 1.0, 3]])
+    Wa, Wb = np.linalg.cholesky(A), np.linalg.cholesky(B)
+    H = np.array([[1.0, 0.0, -0.5], [0.25, 2.0, 0.0]])
+    Rs = np.array([[0.3, 0.0], [0.1, 0.2]])
+    Fm = np.array([[0.0, 1.0, -0.5], [-2.0, -0.3, 0.25], [0.5, 0.0, 1.0]])
+
+    def low(M):
+        S = ca.SX(ca.Sparsity.lower(M.shape[0]))
+        for c in range(M.shape[0]):
+            for r in range(c, M.shape[0]):
+                S[r, c] = float(M[r, c])
+        return S
+
+    def ev(xs):
+        return b"".join(np.array(ca.evalf(ca.densify(x)), dtype=float).tobytes() for x in (xs if isinstance(xs, (tuple, list)) else [xs]))
+    ops = {"ldl": lambda M, W: ev(u.ldl_symmetric_decomposition(ca.SX(ca.DM(M)))), "udu": lambda M, W: ev(u.udu_symmetric_decomposition(ca.SX(ca.DM(M)))),
+           "sqrt_correct": lambda M, W: ev(u.sqrt_correct(low(Rs), ca.SX(ca.DM(H)), low(W))),
+           "sqrt_covariance_predict": lambda M, W: ev(u.sqrt_covariance_predict(low(W), ca.SX(ca.DM(Fm)), ca.SX(ca.DM(M)))),
+           "rk4": lambda M, W: ev(u.rk4(lambda t_, y_: ca.mtimes(ca.DM(Fm), y_) + t_, 0.3, ca.SX(ca.DM(M[:, 0])), ca.SX(0.25)))}
+    a, b = case["pair"]
+    fa = lambda: ops[a](A, Wa)
+    fb = lambda: ops[b](B, Wb)
+    with contextlib.redirect_stdout(io.StringIO()):
+        alone = [fa(), fb()]
+        nruns = mp = 0
+        for choices, results, npts, capped in threads.explore([fa, fb], ("cyecca/util.py",), bound, max_runs=case["max_runs"]):
+            if capped:
+                res.counters["capped_at_runs"] = nruns
+                break
+            nruns += 1
+            mp = max(mp, npts)
+            res.count("evaluations")
+            res.count("schedules")
+            res.count("traces_validated_against_impl")
+            res.nontrivial.add(hash((a, b, tuple(choices))))
+            res.outcomes.add(hash(tuple(r[1] if r else None for r in results)))
+            for k, (nm, r) in enumerate(zip((a, b), results)):
+                if r is None or r[0] != "ok" or r[1] != alone[k]:
+                    res.fail(site="util." + nm, clause="result_independent_of_a_concurrent_call", cls="with_" + (b if k == 0 else a),
+                             detail=dict(pair=[a, b], thread=k, schedule=choices, outcome=(r[1] if r and r[0] != "ok" else "differs from the call alone")), sub="threads", case=case)
+                    break
+            if len(res.fails) >= 5:
+                break
+    res.counters["max_scheduling_points"] = max(res.counters["max_scheduling_points"], mp)
+    res.samples.append(dict(thread_pair=[a, b], schedules=nruns, scheduling_points=mp, preemption_bound=bound))
+    return res
+
+
+class _SubT:
+    chunks = 1
+
+    def cases(self, tier, seed):
+        names = ["ldl", "udu", "sqrt_correct", "sqrt_covariance_predict", "rk4"]
+        pairs = [(x, x) for x in names] + [("ldl", "udu"), ("sqrt_correct", "sqrt_covariance_predict"), ("rk4", "sqrt_correct")]
+        return [dict(sub="threads", pair=list(p), bound=(1 if tier == "quick" else 2), max_runs=(4000 if tier == "quick" else 40000), tier=tier) for p in pairs]
+
+    def run(self, case):
+        return explore_threads(case)
+
+
 class _SubV:
     chunks = 1
 
@@ -931,6 +999,6 @@ class _SubR:
         return explore_rk4(case)
 
 
-SUBCHECKS = {"variants": _SubV(), "predict": _SubP(), "correct": _SubC(), "fact": _SubF(), "rk4": _SubR()}
+SUBCHECKS = {"variants": _SubV(), "predict": _SubP(), "correct": _SubC(), "fact": _SubF(), "rk4": _SubR(), "threads": _SubT()}
 REPLAY = {"variants": lambda c: explore_predict_variants(c).fails, "predict": lambda c: explore_predict(c).fails, "correct": lambda c: explore_correct(c).fails,
-          "fact": lambda c: explore_fact(c).fails, "rk4": lambda c: explore_rk4(c).fails}
+          "fact": lambda c: explore_fact(c).fails, "rk4": lambda c: explore_rk4(c).fails, "threads": lambda c: explore_threads(c).fails}
